@@ -114,8 +114,11 @@ package pruner
 //@   sets snapTaken = result
 //@   ensures result != nil
 //@ extern func github.com/NethermindEth/juno/db.Snapshot.Close
+// What OldestRetainedBlock answered (ghost record, also used by packages that call it).
+//@ ghost var oldestRead uint64
 //@ func OldestRetainedBlock
 //@   trusted
+//@   sets oldestRead = result0
 //@ extern func github.com/NethermindEth/juno/core.GetRunningEventFilter
 //@ extern func github.com/NethermindEth/juno/core.NewAggregatedFilter
 //@ extern func github.com/NethermindEth/juno/core.NewRunningEventFilterHot
@@ -135,7 +138,7 @@ package pruner
 //@   nosafe
 //@   requires database != nil
 //@   modifies *
-//@   assigns snapTaken, calls_NewSnapshot, l1HeadRead, heightRead
+//@   assigns snapTaken, calls_NewSnapshot, l1HeadRead, heightRead, oldestRead
 //@   callsite GetChainHeight@*: through_the_snapshot: calls_NewSnapshot == old(calls_NewSnapshot) + 1 && $0 == snapTaken
 //@   callsite OldestRetainedBlock@*: through_the_snapshot: calls_NewSnapshot == old(calls_NewSnapshot) + 1 && $0 == snapTaken
 //@   callsite GetRunningEventFilter@*: through_the_snapshot: calls_NewSnapshot == old(calls_NewSnapshot) + 1 && $0 == snapTaken
